@@ -18,6 +18,10 @@ Monitors (DESIGN.md 4/C18).  Layer A, attached in place on cryocat.nnana:
 Layer B (driver): every case is run a second time after moving each tomogram by its own (Q, t) - positions Q.p + t split
   anew into x + shift, orientations to_zxz(Q.R) - and the two tables are compared query by query, rank by rank:
     rigid_structure, rigid_distance, rigid_frame_offset, rigid_angular, rigid_relative_orientation   (1e-6)
+  History (class reuse_in_place and ~40% of the other cases): the moved pose is written IN PLACE into the same Motl objects
+  (both lists, or first only the second list - a new geometry - and then the first) and get_nn_stats is called again on
+  those objects: every such call is judged by the nn_* monitors against brute force on the positions held at that moment,
+  the last one also by the rigid_* relations (reused_objects counts these calls).
 """
 import os
 
@@ -49,12 +53,14 @@ ASSUMPTIONS = [
     "distance ties: a call is not judged when, for some query, two consecutive sorted brute-force distances among the "
     "first k+1 differ by <= 1e-9*max(1,d); generated cases keep a margin of 1e-7 and are regenerated otherwise",
     "completely disjoint tomogram sets: get_nn_stats raises ValueError (nothing to concatenate); not judged",
+    "the statement is about the lists as they are at the time of the call: a Motl object analysed before and rewritten in place "
+    "since (same particle count) is judged against brute force on its current positions and orientations",
     "tolerances: lengths 1e-9*max(1, |P|max*pixel); matrix entries 1e-7 (Euler) / 1e-9 (z-image); angular distance 1e-7 "
     "deg, 1e-4 deg below 0.01 deg (acos of a quaternion product); rigid-motion relation 1e-6 (scaled for lengths)",
 ]
 
 CLASSES = ["random", "partial_disjoint", "coincident", "k_gt_available", "n1", "odd_index", "ids_tomos_hostile",
-           "gimbal_same_ori", "clustered_paired", "big_shifts", "close_calls", "large", "disjoint"]
+           "gimbal_same_ori", "clustered_paired", "big_shifts", "close_calls", "large", "disjoint", "reuse_in_place"]
 DIRECT = ["nn_rows", "nn_identity", "nn_distance", "nn_offset", "nn_frame_offset", "nn_angular", "nn_relative_orientation"]
 RIGID = ["rigid_structure", "rigid_distance", "rigid_frame_offset", "rigid_angular", "rigid_relative_orientation"]
 GEN_TIE = 1e-7
@@ -63,14 +69,16 @@ MON_TIE = 1e-9
 
 def plan(tier):
     if tier == "quick":
-        me = {m: 420 for m in DIRECT}
-        me.update({m: 200 for m in RIGID})
-        me["knn_query"] = 1500
-        return dict(n_cases=260, shards=3, classes=CLASSES, timeout_s=600, min_evals=me)
-    me = {m: 7000 for m in DIRECT}
-    me.update({m: 3500 for m in RIGID})
-    me["knn_query"] = 27000
-    return dict(n_cases=4160, shards=16, classes=CLASSES, timeout_s=3000, min_evals=me)
+        me = {m: 500 for m in DIRECT}
+        me.update({m: 220 for m in RIGID})
+        me["knn_query"] = 1800
+        me["reused_objects"] = 60
+        return dict(n_cases=280, shards=3, classes=CLASSES, timeout_s=600, min_evals=me)
+    me = {m: 8000 for m in DIRECT}
+    me.update({m: 3700 for m in RIGID})
+    me["knn_query"] = 30000
+    me["reused_objects"] = 1000
+    return dict(n_cases=4480, shards=16, classes=CLASSES, timeout_s=3000, min_evals=me)
 
 
 # ---- judging a returned table against the brute-force reference ------------------------------------
@@ -244,7 +252,7 @@ def setup(ctx):
     ctx.nn, ctx.cm = nnana, cryomotl
     f_stats = monitors.wrap(ctx, nnana, "get_nn_stats", "nn_rows", _post_stats, _app_stats, _snap_stats)
     f_knn = monitors.wrap(ctx, nnana, "get_feature_nn_indices", "knn_query", _post_knn, _app_knn, _snap_knn)
-    ctx.declare(*(DIRECT + RIGID))
+    ctx.declare(*(DIRECT + RIGID + ["reused_objects"]))
     ctx.notes.append("named branch get_nn_distances.empty_subset_skip cannot be reached through lists with a shared tomogram (the subset of a "
                      "shared tomogram is never empty); path_argument_a is reached once by extra() (documented str argument, raises TypeError, not judged)")
     monitors.trace(ctx, [
@@ -505,15 +513,24 @@ def gen(ctx, i, cls):
     dfa2 = _moved(r2, dfa, motions)
     dfb2 = dfa2.copy() if coincident else _moved(r2, dfb, motions)
     call_style = str(rng.choice(["keywords", "positional", "numpy_scalars"]))
+    # history: are the moved lists new Motl objects, or the SAME objects rewritten in place (state kept on an object between
+    # two analyses must not leak into the second one)?  own random stream, so the lists do not depend on it
+    r3 = ctx.rng(i, 2)
+    if cls == "reuse_in_place":
+        history = str(r3.choice(["inplace_both", "inplace_b_then_a"]))
+    else:
+        history = str(r3.choice(["fresh", "inplace_both", "inplace_b_then_a"], p=[0.6, 0.25, 0.15]))
+    if same_object and history == "inplace_b_then_a":
+        history = "inplace_both"
     summ = {"cls": cls, "na": int(len(dfa)), "nb": int(len(dfb)), "tomos_a": [float(t) for t in pd.unique(dfa["tomo_id"])], "tomos_b": [float(t) for t in pd.unique(dfb["tomo_id"])],
             "n_shared": len(shared), "k": k, "pixel": pixel,
             "pos": pos_kind, "ori": [ori_a, ori_b], "ids": [id_a, id_b], "index": [idx_a, idx_b], "motions": [mkinds[t] for t in sorted(mkinds)],
-            "same_object": same_object, "call": call_style,
+            "same_object": same_object, "call": call_style, "history": history,
             "min_rel_gap": (float("%.2g" % min_gap) if min_gap is not None and np.isfinite(min_gap) else None),
             "a0": {c: float(dfa[c].iloc[0]) for c in ("subtomo_id", "tomo_id", "x", "shift_x", "phi", "theta", "psi")},
             "b0": {c: float(dfb[c].iloc[0]) for c in ("subtomo_id", "tomo_id", "x", "shift_x", "phi", "theta", "psi")}}
     return {"i": i, "cls": cls, "dfa": dfa, "dfb": dfb, "dfa2": dfa2, "dfb2": dfb2, "k": k, "pixel": pixel, "shared": shared,
-            "coincident": coincident, "same_object": same_object, "unresolved_ties": unresolved, "call_style": call_style, "summary": summ}
+            "coincident": coincident, "same_object": same_object, "unresolved_ties": unresolved, "call_style": call_style, "history": history, "summary": summ}
 
 
 def nontrivial(case):
@@ -572,6 +589,16 @@ def _compare_moved(ctx, T0, T1, scale):
         ctx.check(m, w[m] is None, w[m])
 
 
+POSE = ["x", "y", "z", "shift_x", "shift_y", "shift_z", "phi", "theta", "psi"]
+
+
+def _rewrite_in_place(m, moved):
+    """write the moved pose into the table of the existing Motl object (row by row, positionally); the object is kept"""
+    vals = moved[POSE].to_numpy(dtype=float)
+    for j, c in enumerate(POSE):
+        m.df[c] = vals[:, j]
+
+
 def run_case(ctx, case):
     cm = ctx.cm
     if case["unresolved_ties"]:
@@ -594,11 +621,26 @@ def run_case(ctx, case):
             ctx.ood(m)
         return
     ok0, T0 = _call_stats(ctx, "get_nn_stats", A, B, case)
-    okA2, A2 = ctx.call("Motl(a moved)", cm.Motl, case["dfa2"].copy())
-    okB2, B2 = (okA2, A2) if case["same_object"] else ctx.call("Motl(b moved)", cm.Motl, case["dfb2"].copy())
-    if not (okA2 and okB2):
-        return
-    ok1, T1 = _call_stats(ctx, "get_nn_stats(moved)", A2, B2, case)
+    if case["history"] == "fresh":
+        okA2, A2 = ctx.call("Motl(a moved)", cm.Motl, case["dfa2"].copy())
+        okB2, B2 = (okA2, A2) if case["same_object"] else ctx.call("Motl(b moved)", cm.Motl, case["dfb2"].copy())
+        if not (okA2 and okB2):
+            return
+        ok1, T1 = _call_stats(ctx, "get_nn_stats(moved)", A2, B2, case)
+    else:
+        # the very same Motl objects, rewritten in place; every call is judged by the nn_* call monitors against brute force
+        # on the positions the objects hold at that moment
+        if case["history"] == "inplace_b_then_a":
+            _rewrite_in_place(B, case["dfb2"])              # only the second list moved: a new geometry, not a rigid motion
+            okm, Tm = _call_stats(ctx, "get_nn_stats(second list moved in place)", A, B, case)
+            ctx.check("reused_objects", okm and isinstance(Tm, pd.DataFrame), {"what": "no table after moving the second list in place"})
+            _rewrite_in_place(A, case["dfa2"])
+        else:
+            _rewrite_in_place(A, case["dfa2"])
+            if B is not A:
+                _rewrite_in_place(B, case["dfb2"])
+        ok1, T1 = _call_stats(ctx, "get_nn_stats(moved in place)", A, B, case)
+        ctx.check("reused_objects", ok1 and isinstance(T1, pd.DataFrame), {"what": "no table after moving both lists in place"})
     if not (ok0 and ok1):
         return
     P = np.vstack([gens.positions(case["dfa"]), gens.positions(case["dfb"]), gens.positions(case["dfa2"]), gens.positions(case["dfb2"])])
